@@ -634,7 +634,11 @@ func (p *pp) handleMethods(verb rune) (handled bool) {
 			handled = true
 			defer p.catchPanic(p.arg, verb, "SafeMessager")
 			defer p.startSafeOverride().restore()
-			p.fmtString(v.SafeMessage(), verb)
+			// What is safe is the message, not the value that provides
+			// it: the message is also what a bad verb must report.
+			msg := v.SafeMessage()
+			p.arg = msg
+			p.fmtString(msg, verb)
 			return
 
 		case error:
